@@ -112,12 +112,15 @@ func (s *realSched) SchedulePeriodicJob(ctx context.Context, class string, name 
 	return nil
 }
 
+// CancelJob: the table and the real scheduler change together (under the adapter's
+// lock), otherwise a concurrent ScheduleJob of the same name - overlapping duty
+// refreshes do that - could have its fresh entry removed by this cancel.
 func (s *realSched) CancelJob(ctx context.Context, name string) error {
+	s.mu.Lock()
+	defer s.mu.Unlock()
 	err := s.inner.CancelJob(ctx, name)
 	if err == nil {
-		s.mu.Lock()
 		delete(s.jobs, name)
-		s.mu.Unlock()
 	}
 	return err
 }
@@ -127,35 +130,29 @@ func (s *realSched) CancelJobIfExists(ctx context.Context, name string) {
 }
 
 func (s *realSched) CancelJobs(ctx context.Context, prefix string) {
-	s.inner.CancelJobs(ctx, prefix)
 	s.mu.Lock()
+	defer s.mu.Unlock()
+	s.inner.CancelJobs(ctx, prefix)
 	for n := range s.jobs {
 		if strings.HasPrefix(n, prefix) {
 			delete(s.jobs, n)
 		}
 	}
-	s.mu.Unlock()
 }
 
 // RunJob is vouch telling the scheduler to run a job now.  The job leaves the table
 // at once (as in the real scheduler); its goroutine stays alive until the job is done.
 func (s *realSched) RunJob(ctx context.Context, name string) error {
 	s.mu.Lock()
+	defer s.mu.Unlock()
 	sh := s.jobs[name]
+	err := s.inner.RunJob(ctx, name) // only signals the job's goroutine
 	if sh != nil && !sh.Periodic {
 		delete(s.jobs, name)
-		sh.claimed = true
-		s.claimed++
-	}
-	s.mu.Unlock()
-	err := s.inner.RunJob(ctx, name)
-	if err != nil && sh != nil && !sh.Periodic {
-		s.mu.Lock()
-		if sh.claimed {
-			sh.claimed = false
-			s.claimed--
+		if err == nil {
+			sh.claimed = true
+			s.claimed++
 		}
-		s.mu.Unlock()
 	}
 	return err
 }
